@@ -4,6 +4,7 @@ package kslib
 
 import (
 	"crypto/rand"
+	"crypto/rsa"
 	"fmt"
 	"math/big"
 )
@@ -21,13 +22,22 @@ func weakRSA(label string, bits int, e int64) (*RSAParts, error) {
 	E := big.NewInt(e)
 	one := big.NewInt(1)
 	for try := 0; try < 200; try++ {
-		p, err := rand.Prime(rand.Reader, (bits+1)/2)
-		if err != nil {
-			return nil, err
-		}
-		q, err := rand.Prime(rand.Reader, bits-(bits+1)/2)
-		if err != nil {
-			return nil, err
+		var p, q *big.Int
+		if bits >= 1024 {
+			// crypto/rsa's generator is much faster than rand.Prime; only the primes are kept
+			k, err := rsa.GenerateKey(rand.Reader, bits)
+			if err != nil {
+				return nil, err
+			}
+			p, q = k.Primes[0], k.Primes[1]
+		} else {
+			var err error
+			if p, err = rand.Prime(rand.Reader, (bits+1)/2); err != nil {
+				return nil, err
+			}
+			if q, err = rand.Prime(rand.Reader, bits-(bits+1)/2); err != nil {
+				return nil, err
+			}
 		}
 		if p.Cmp(q) == 0 {
 			continue
@@ -68,7 +78,6 @@ func WeakRSAKeys() ([]*RSAParts, []string) {
 		{"rsa2048-e3", 2048, 3},
 		{"rsa2048-e17", 2048, 17},
 		{"rsa2048-e65539", 2048, 65539},
-		{"rsa3072-e3", 3072, 3},
 		{"rsa512-e65537", 512, 65537},
 	} {
 		k, err := weakRSA(c.label, c.bits, c.e)
